@@ -239,3 +239,31 @@ def install_cfunits_stub():
     mod.Units = Units
     mod.__vmon_stub__ = True
     sys.modules['cfunits'] = mod
+
+
+class PackageCoverage:
+    """Development aid (tools/coverage_gaps.py): which lines of the whole emsarray package did a workload execute?
+    One global LINE callback that disables each location after its first hit, so the cost is one event per line."""
+    TOOL = 4
+
+    def __init__(self, prefix):
+        self.prefix = prefix
+        self.hit = set()
+
+    def start(self):
+        mon = sys.monitoring
+        mon.use_tool_id(self.TOOL, 'vmon-cover')
+        mon.register_callback(self.TOOL, mon.events.LINE, self._on_line)
+        mon.set_events(self.TOOL, mon.events.LINE)
+
+    def _on_line(self, code, line):
+        fn = code.co_filename
+        if fn.startswith(self.prefix):
+            self.hit.add((fn[len(self.prefix):], line))
+        return sys.monitoring.DISABLE
+
+    def stop(self):
+        mon = sys.monitoring
+        mon.set_events(self.TOOL, 0)
+        mon.register_callback(self.TOOL, mon.events.LINE, None)
+        mon.free_tool_id(self.TOOL)
